@@ -1058,6 +1058,7 @@ def load(root="/repo", config="default", extra_flags=()):
     from . import inline as _inline
     try:
         _inline.inline_private_helpers(fb)
+        _inline.alias_staging_buffers(fb)
     except Broken:
         raise
     return fb
